@@ -59,10 +59,12 @@ def jobs(tier, seed, pool):
         if k < 6:
             init = {'sample': r.choice(tex_names)}
         elif k < 8:
-            ver = r.choice(['OB', 'FO3', 'SK', 'SSE', 'FO4', 'FO76'])
+            ver = r.choice(['OB', 'OB', 'FO3', 'SK', 'SSE', 'FO4', 'FO76'])
             sh = hist.shape_spec(r, ver, 'quick', name='s0')
             if sh['nv'] > 300:
                 sh.update({'nv': 12, 'nt': 10})
+            if ver in ('OB', 'FO3') and r.chance(0.7):
+                sh['legacy_texturing'] = True   # texturing property with base / glow / decal textures: references in version-dependent slots
             init = {'builder': {'version': ver, 'salt': r.below(1 << 30), 'nodes': r.below(4), 'shapes': [sh]}}
             hist.maybe_attach(r, init, 0.5)
         else:
